@@ -50,9 +50,12 @@ def ref(i):
     r.authors = "Author %d" % i
     r.journal = "Journal %d" % i
     r.pubmed_id = str(1000 + i)
-    if i % 2 == 1:
+    if i % 4 == 1:
         # GenBank `REFERENCE n (bases 3 to 9)`: a base range shorter than any of the plasmids
         r.location = [FeatureLocation(2, 9)]
+    elif i % 4 == 3:
+        # ... and one longer than any product (the reference was made for a bigger construct)
+        r.location = [FeatureLocation(0, 400)]
     return r
 
 
